@@ -55,6 +55,12 @@ var extraRules = map[string][]string{
 	"grpc-error-trailers-complete":    {"C02", "C05"},
 	"wire-error-fields-unconditional": {"C02", "C05"},
 	"decompress-nonempty":             {"C01", "C08"},
+	"handler-never-drains-request":    {"C14"},
+	"request-bound-to-context":        {"C14", "C15"},
+	"err-not-overwritten":             {"C02", "C04", "C06", "C14"},
+	"timeout-handler":                 {"C15"},
+	"ctx-first-wrapper":               {"C04"},
+	"ready-closed-once":               {"C04"},
 	"merge-into-owned":                {"C02", "C11", "C13", "C19"},
 	"recover-only-in-interceptor":     {"C19", "C07"},
 	"unary-always-decodes":            {"C07", "C01"},
